@@ -49,35 +49,39 @@ Dense(expr, ops, order, C) ==
 ZGet(z, p) == IF \E x \in z : x[1] = p THEN (CHOOSE x \in z : x[1] = p)[2] ELSE 0
 ZPut(z, p, v) == {x \in z : x[1] # p} \cup (IF v = 0 THEN {} ELSE {<<p, v>>})       \* a sum that cancels leaves no element (populate removes it)
 
-RECURSIVE RunLevel(_, _, _, _, _, _, _)
-RECURSIVE RunCoords(_, _, _, _, _, _, _, _, _)
+RECURSIVE RunLevel(_, _, _, _, _, _, _, _)
+RECURSIVE RunCoords(_, _, _, _, _, _, _, _, _, _)
 \* stamp: iteration counters of the enclosing levels; pt: coordinates of the enclosing levels
-RunLevel(expr, ops, order, lvl, asg, ctx, st) ==
+\* cfg == [ufmt |-> set of <<tensor, variable>> whose rank is declared uncompressed (the whole extent is presented, absent elements as defaults),
+\*         ext |-> extent per variable, nofilter |-> TRUE when the body accumulates every product, zero ones included]
+CoordsAtX(f, ops, asg, v, cfg) == IF <<f.t, v>> \in cfg.ufmt THEN 0..(cfg.ext[v] - 1) ELSE CoordsAt(f, ops, asg, v)
+RunLevel(expr, ops, order, lvl, asg, ctx, st, cfg) ==
     IF lvl > Len(order)
     THEN LET vals == [i \in 1..Len(expr.facs) |-> ValAt(expr.facs[i], ops, asg)]
              prod == ProdSeq(vals)
              p    == OutPt(expr, asg)
              old  == ZGet(st.z, p)
              st1  == [st EXCEPT !.mul = @ + Len(expr.facs) - 1]
-         IN IF prod = 0 THEN st1
+         IN IF prod = 0 /\ ~cfg.nofilter THEN st1
             ELSE [st1 EXCEPT !.z = ZPut(@, p, old + prod), !.upd = @ + 1, !.add = @ + (IF old # 0 THEN 1 ELSE 0)]
     ELSE LET v    == order[lvl]
              part == SelectSeq(expr.facs, LAMBDA f : v \in SeqToSet(f.ix))
-             cs   == IF Len(part) = 0 THEN {} ELSE {c \in CoordsAt(part[1], ops, asg, v) : \A k \in 2..Len(part) : c \in CoordsAt(part[k], ops, asg, v)}
-         IN RunCoords(expr, ops, order, lvl, asg, ctx, st, SetToSortedSeq(cs), 1)
-RunCoords(expr, ops, order, lvl, asg, ctx, st, cs, k) ==
+             cs   == IF Len(part) = 0 THEN {} ELSE {c \in CoordsAtX(part[1], ops, asg, v, cfg) : \A k \in 2..Len(part) : c \in CoordsAtX(part[k], ops, asg, v, cfg)}
+         IN RunCoords(expr, ops, order, lvl, asg, ctx, st, SetToSortedSeq(cs), 1, cfg)
+RunCoords(expr, ops, order, lvl, asg, ctx, st, cs, k, cfg) ==
     IF k > Len(cs) THEN st
     ELSE LET c    == cs[k]
              row  == [stamp |-> Append(ctx.stamp, k - 1), point |-> Append(ctx.point, c), pos |-> k - 1]
              st1  == [st EXCEPT !.it[lvl] = @ + 1, !.rows[lvl] = Append(@, row)]
-             st2  == RunLevel(expr, ops, order, lvl + 1, asg @@ (order[lvl] :> c), [stamp |-> row.stamp, point |-> row.point], st1)
+             st2  == RunLevel(expr, ops, order, lvl + 1, asg @@ (order[lvl] :> c), [stamp |-> row.stamp, point |-> row.point], st1, cfg)
              \* did this body execution write into the output (then its output element survives the populate step)?
              n    == Len(st1.rows[lvl])
              st3  == [st2 EXCEPT !.wrote[lvl] = Append(@, st2.upd > st1.upd)]
-         IN RunCoords(expr, ops, order, lvl, asg, ctx, st3, cs, k + 1)
-Run(expr, ops, order) ==
+         IN RunCoords(expr, ops, order, lvl, asg, ctx, st3, cs, k + 1, cfg)
+RunX(expr, ops, order, cfg) ==
     RunLevel(expr, ops, order, 1, <<>>, [stamp |-> <<>>, point |-> <<>>],
-             [z |-> {}, mul |-> 0, add |-> 0, upd |-> 0, it |-> [k \in 1..Len(order) |-> 0], rows |-> [k \in 1..Len(order) |-> <<>>], wrote |-> [k \in 1..Len(order) |-> <<>>]])
+             [z |-> {}, mul |-> 0, add |-> 0, upd |-> 0, it |-> [k \in 1..Len(order) |-> 0], rows |-> [k \in 1..Len(order) |-> <<>>], wrote |-> [k \in 1..Len(order) |-> <<>>]], cfg)
+Run(expr, ops, order) == RunX(expr, ops, order, [ufmt |-> {}, ext |-> <<>>, nofilter |-> FALSE])
 
 \* ---- element-wise addition  Z[m] = A[m] + B[m]  in the union idiom:
 \*      for m, (z_ref, (mask, a_val, b_val)) in z_m << (a_m | b_m): z_ref <<= a_val + b_val
